@@ -207,11 +207,16 @@ class BuiltinsStub(dict):
         self._log = log
         self["__import__"] = self._imp
 
-    def _imp(self, name, globals=None, locals=None, fromlist=(), level=0):
-        for n in (fromlist or ()):
-            m, nn = norm_global(name, n)
-            self._log.add(("import", m, nn))
-        return ModStub(self._log, name)
+    def _imp(self, *a, **k):
+        # the import statement calls __import__(name, globals, locals, fromlist, level) with the exec
+        # globals; anything else is the decompiled program itself calling the builtin __import__
+        if len(a) == 5 and not k and isinstance(a[0], str) and isinstance(a[1], dict) and "__builtins__" in a[1]:
+            name, fromlist = a[0], a[3]
+            for n in (fromlist or ()):
+                m, nn = norm_global(name, n)
+                self._log.add(("import", m, nn))
+            return ModStub(self._log, name)
+        return self._log.glob("builtins", "__import__")(*a, **k)
 
     def __missing__(self, name):
         if _VARNAME.match(name) or name == "UNPICKLER":
